@@ -112,7 +112,8 @@ def run_case(case, runners, home):
 
 def e2e(ctx):
     quick = ctx.tier == "quick"
-    plan = [("c13", None)] * (64 if quick else 1100) + [("d27", None)] * (8 if quick else 80) + [("d28", None)] * (6 if quick else 60)
+    plan = [("c13", None)] * (64 if quick else 1100) + [("d27", None)] * (8 if quick else 80) + [("d28", None)] * (6 if quick else 60) + \
+        [("samename", None)] * (4 if quick else 40)
     plan = [(p, "cli-proc" if p == "c13" and i % (21 if quick else 40) == 5 else None) for i, (p, _) in enumerate(plan)]
     seeds = [ctx.rng.getrandbits(48) for _ in plan]
     ctx.extra.setdefault("observations", {})
